@@ -17,6 +17,9 @@ EQ, COMMA, LP, RP, LB, RB, SEMI, UNITS, PARTIAL = "=", ",", "(", ")", "{", \
 # a units expression with a units delimiter inside it, e.g. "<m<s>": what an
 # unterminated "<km" followed by a later "<m>" lexes to
 BADUNITS = "BADUNITS"
+# a token made of a character that Python counts as white space but the
+# grammar does not (allowed in the dialect, so it reaches the parser)
+ODDSPACE = "ODDSPACE"
 
 KEYWORDS = {"end", "group", "object", "begin_group", "begin_object",
             "end_group", "end_object", "null", "true", "false", "inf",
